@@ -50,7 +50,9 @@ def slot_variants():
         add("method:%r" % m, build(method=m))
     for t in (b"/", b"*", b"http://x.example/abs", b"/\xc3\xa9", b"/a b", b"/a\tb", b"", b"/\x7f", b"/\x00"):
         add("target:%r" % t, build(target=t))
-    for ver in (b"HTTP/1.0", b"HTTP/1.2", b"HTTP/2.0", b"http/1.1", b"HTTP/1.1 ", b"HTTP/11", b"HTTP/1.10", b""):
+    for ver in (b"HTTP/1.0", b"HTTP/1.2", b"HTTP/2.0", b"http/1.1", b"HTTP/1.1 ", b"HTTP/11", b"HTTP/1.10", b"",
+                b"HTTP/1x1", b"HTTP/1,1", b"HTTP/1 1", b"HTTP/1/1", b"HTTP/1.", b"HTTP/.1", b"HTTP/1.1.1", b"HTTP/01.1",
+                b"HTTP1.1", b"HTTP/a.1", b"HTTP/1.a", b"HTTPS/1.1", b"HTTP/1\x001"):
         add("version:%r" % ver, build(version=ver))
     add("reqline:double-space", GET.replace(b"GET /", b"GET  /", 1))
     add("reqline:tab", GET.replace(b"GET /", b"GET\t/", 1))
